@@ -22,7 +22,7 @@ def chain_delay(pipe):
 class C07(Prop):
     pid = "C07"
     lean_module = "RxModel.Props.C07"
-    extra_modules = ("RxModel.Props.C07C", "RxModel.Props.C07C2")
+    extra_modules = ("RxModel.Props.C07C", "RxModel.Props.C07C2", "RxModel.Props.C07S")
     design_ref = "DESIGN.md §6 C07"
     rule = ("chains of delay / observe_on / subscribe_on / delay_subscription (and their _at and _threads forms) "
             "mixed with synchronous operators over a hot subject or a cold source, items tagged 1,2,3…; scripts of "
@@ -114,6 +114,14 @@ class C07(Prop):
                                 evs += [["emit", "0", term]]
                             evs += [["adv", "5"], ["run"], ["q", "tap"]]
                             out.append(Case("time", fl, [("pipe", [pipe])], evs, {"kind": "starved-stage", "n": n_items}))
+        # delay / observe_on on two REAL OS threads (suite `coop`, shared with C02): the tie of the step model under
+        # C07S_at_most_once — an emitter / the executor / unsubscribe() preempted at every lock acquisition; oracle on the
+        # implementation: only source items, none more often than it was emitted
+        from .. import coopgen as cg
+        for c in cg.mover_cases(tier, seed):
+            d = c.copy()
+            d.meta = {"kind": "coop-mover"}
+            out.append(d)
         return out
 
     def starved_oracle(self, case, lines):
@@ -146,7 +154,16 @@ class C07(Prop):
         except Exception:
             return False
 
+    def compare_from(self, case):
+        if case.suite == "coop":
+            from .. import coopgen as cg
+            return 0 if cg.modelled(case) else len(case.events)
+        return 0
+
     def oracle(self, case, lines, model_lines=None):
+        if case.suite == "coop":
+            from .. import coopgen as cg
+            return cg.once_oracle(case, lines)
         if self._is_starved_shape(case):
             f = self.starved_oracle(case, lines)
             if f:
@@ -269,6 +286,9 @@ class C07(Prop):
         return self._heads(pipe)[-1]
 
     def signature(self, case, failure):
+        if case.suite == "coop":
+            from .. import coopgen as cg
+            return cg.signature(case, failure)
         hs = [h for h in self._heads(case.field("pipe")[0]) if h not in ("hot", "iter", "create")]
         if failure["kind"].endswith("-nonfifo"):
             # the finding is about the per-notification tasks of these two operators
@@ -276,9 +296,15 @@ class C07(Prop):
         return f"{failure['kind']}|time|{','.join(sorted(set(hs)))}"
 
     def shrink_candidates(self, case):
+        if case.suite == "coop":
+            from .. import coopgen as cg
+            return cg.shrink_candidates(case)
         return tg.time_shrink(case)
 
     def nontrivial(self, case, lines):
+        if case.suite == "coop":
+            from .. import coopgen as cg
+            return cg.nontrivial(case, lines)
         for b in lines.values():
             outs, kv = tg.parse_suffix(b)
             if outs and kv.get("tm", 0) + kv.get("live", 0) >= 0:
